@@ -50,7 +50,7 @@ def _sig(params, rng, is_mw, bad_next, allow_kwonly, allow_posonly, extra_next=N
                     kw.append((nm, lst is opt))
     po = []
     po_opt = []
-    if allow_posonly and not is_mw and opt and rng.random() < 0.35:
+    if allow_posonly and not is_mw and opt and rng.random() < 0.5:
         # "gap mode": every required positional parameter and some defaulted ones are positional-only
         # (def f(a, b=D, c=D, /, d=D)); what is left of the required ones has to be keyword-only
         k = rng.randint(1, len(opt))
